@@ -5,6 +5,7 @@
 equal to the object built through the public constructor. An error made consistently in parse and compose
 fails both comparisons.
 """
+import copy
 import random
 
 from vmon import core, inventory, pipeline, roundtrip, structural
@@ -32,10 +33,19 @@ class DifferentialCheck(core.CheckBase):
         rng = random.Random(case['rng'])
         found = []
         wanted = case.get('index')
-        for index, pair in enumerate(self.gen.generate(rng, self.PER_BLOCK)):
+        for index, pair in enumerate(self.gen.generate(rng, self.PER_BLOCK, failures=True)):
             if wanted is not None and index != wanted:
                 continue
             single = {'kind': 'block', 'rng': case['rng'], 'index': index, 'label': pair.label}
+            if not hasattr(pair, 'wire'):
+                # a public constructor refused values the specification allows (e.g. an empty list where the RFC permits one)
+                self.stats['construction_failures'] += 1
+                found.append(self.violation(roundtrip.exc_key('construct-raises', pair.error),
+                                            '%s: building the library object for specification-conformant values raised %r' % (
+                                                pair.label, pair.error), single))
+                if wanted is not None:
+                    break
+                continue
             try:
                 found.extend(self.judge_pair(pair, single))
             except Exception as e:  # pylint: disable=broad-except
@@ -73,6 +83,24 @@ class DifferentialCheck(core.CheckBase):
                     '%s: library composes %s, the specification says %s (first difference at byte %d; lengths %d / %d)' % (
                         pair.label, composed[max(0, offset - 8):offset + 12].hex(), pair.wire[max(0, offset - 8):offset + 12].hex(),
                         offset, len(composed), len(pair.wire)), case))
+            # the bytes handed out belong to the caller: scribbling over them must not reach what a later compose of an
+            # equal object returns (results cached in, or aliasing, shared state)
+            if composed is not None and hasattr(pair.obj, 'compose'):
+                try:
+                    twin = copy.deepcopy(pair.obj)
+                    handed_out = pair.obj.compose()
+                    if isinstance(handed_out, bytearray) and handed_out:
+                        self.stats['handed_out_buffers_scribbled'] += 1
+                        handed_out[:] = b'\xa5' * len(handed_out)
+                        handed_out += b'\x5a'
+                        again = bytes(twin.compose())
+                        if again != composed:
+                            found.append(self.violation(
+                                'compose-aliases-result|%s' % name,
+                                '%s: after the caller overwrote the bytes compose() had returned, compose() of an equal %s returns '
+                                '%s.. instead of %s..' % (pair.label, name, again[:16].hex(), composed[:16].hex()), case))
+                except Exception:  # pylint: disable=broad-except
+                    pass
         # (2) parse of the reference encoding vs the constructed object
         self.stats['parse_comparisons'] += 1
         try:
